@@ -787,6 +787,59 @@ func checkWrapperAgreement(c *Ctx, r *Report, gate *connGate) {
 			r.Bad("C04-R3", key, retPos(x.f, ret), fmt.Sprintf("the wrapper turns a %s failure into an error the retry predicate %s does not accept (fragments %q): no failover for this fault kind", class, fname(gate.Fn), ae.Fragments))
 		}
 	}
+	// connect timeouts: a timed-out dial is a *net.OpError{Op:"dial"} whose Timeout() is true AND which satisfies
+	// errors.Is(err, context.DeadlineExceeded) (net's timeout error says so). A branch for it therefore has to be tested
+	// before any DeadlineExceeded test, or it is never reached for this fault.
+	r.Rule("C04-R11", "the error wrapper has a branch for a timed-out dial (OpError.Op == \"dial\" ∧ Timeout()) that is not behind the negative of an errors.Is(err, context.DeadlineExceeded) test — a dial timeout satisfies that test, so a later branch is unreachable for it — and the error that branch builds is accepted by the retry predicate: a connect timeout is a connection-level failure and must fail over like refused/reset/unreachable", 1)
+	key := fname(wrapper) + ":branch:dial-timeout"
+	found, okAcc, behind := false, false, false
+	var at token.Pos
+	var frags []string
+	for _, x := range rets {
+		dial, timeout, notDeadline := false, false, false
+		for _, cf := range normFacts(condFacts(x.ret.Block())) {
+			if isDialOpTest(cf.Cond) && cf.True {
+				dial = true
+			}
+			switch classifyErrCond(cf.Cond) {
+			case "timeout":
+				if cf.True {
+					timeout = true
+				}
+			case "is:DeadlineExceeded":
+				if !cf.True {
+					notDeadline = true
+				}
+			}
+		}
+		if !dial || !timeout {
+			continue
+		}
+		if notDeadline {
+			behind = true
+			continue
+		}
+		found = true
+		at = retPos(x.f, x.ret)
+		ae := evalErr(retResult(x.ret, 0), 4)
+		frags = ae.Fragments
+		if gate.accepts(ae) == "yes" {
+			okAcc = true
+		}
+	}
+	addMutants(Mutant{Prop: "C04", Name: "dial-timeout-behind-deadline-test", File: "internal/adapter/proxy/common/errors.go", Rule: "C04-R11",
+		Old: "	if errors.As(err, &dialErr) && dialErr.Op == \"dial\" && dialErr.Timeout() {",
+		New: "	if !errors.Is(err, context.DeadlineExceeded) && errors.As(err, &dialErr) && dialErr.Op == \"dial\" && dialErr.Timeout() {"})
+	switch {
+	case found && okAcc:
+		r.OK("C04-R11", key, at, fmt.Sprintf("a timed-out dial is classified before the request-deadline test and its error is accepted by %s (fragments %q)", fname(gate.Fn), frags))
+	case found:
+		r.Bad("C04-R11", key, at, fmt.Sprintf("the wrapper's branch for a timed-out dial builds an error the retry predicate %s does not accept (fragments %q): no failover after a connect timeout", fname(gate.Fn), frags))
+	case behind:
+		r.Bad("C04-R11", key, wrapper.Pos(), "the wrapper's dial-timeout branch sits behind the errors.Is(err, context.DeadlineExceeded) test, which a dial timeout satisfies: the fault is reported as the request's own timeout and is not failed over")
+	default:
+		r.Bad("C04-R11", key, wrapper.Pos(), "the error wrapper has no branch for a timed-out dial: net's dial timeout satisfies errors.Is(err, context.DeadlineExceeded) and is reported as the request's server timeout, an error the retry predicate does not accept — a connect timeout does not fail over to the remaining endpoints")
+	}
 }
 
 func classifyErrCond(v ssa.Value) string {
@@ -808,6 +861,10 @@ func classifyErrCond(v ssa.Value) string {
 		}
 	case call.Call.IsInvoke() && call.Call.Method.Name() == "Timeout":
 		return "timeout"
+	case !call.Call.IsInvoke() && ci.Pkg == "net" && ci.Name == "Timeout":
+		return "timeout"
+	case ci.Pkg == "errors" && ci.Name == "Is" && len(call.Call.Args) == 2 && isDeadlineExceeded(call.Call.Args[1]):
+		return "is:DeadlineExceeded"
 	case ci.Pkg == "errors" && ci.Name == "Is":
 		// errors.Is(*syscallErr, syscall.ECONNREFUSED)
 		t := call.Call.Args[1]
@@ -831,4 +888,34 @@ func classifyErrCond(v ssa.Value) string {
 		}
 	}
 	return ""
+}
+
+// isDeadlineExceeded: v is (a load of) the package variable context.DeadlineExceeded.
+func isDeadlineExceeded(v ssa.Value) bool {
+	if mi, ok := v.(*ssa.MakeInterface); ok {
+		v = mi.X
+	}
+	if ci, ok := v.(*ssa.ChangeInterface); ok {
+		v = ci.X
+	}
+	ld, ok := v.(*ssa.UnOp)
+	if !ok {
+		return false
+	}
+	g, ok := ld.X.(*ssa.Global)
+	return ok && g.Name() == "DeadlineExceeded" && g.Pkg != nil && g.Pkg.Pkg.Path() == "context"
+}
+
+// isDialOpTest: v is the comparison `opErr.Op == "dial"` on a *net.OpError.
+func isDialOpTest(v ssa.Value) bool {
+	bo, ok := v.(*ssa.BinOp)
+	if !ok || bo.Op != token.EQL {
+		return false
+	}
+	for _, pair := range [][2]ssa.Value{{bo.X, bo.Y}, {bo.Y, bo.X}} {
+		if k, ok := constString(pair[1]); ok && k == "dial" && mentionsField(pair[0], "net", "OpError", "Op", 2) {
+			return true
+		}
+	}
+	return false
 }
